@@ -79,7 +79,7 @@ def env_case(case):
     B = case['batch']
     keys = jax.random.split(jax.random.PRNGKey(case['seed']), B)
     rs = np.random.RandomState(case['seed'])
-    acts = jp.asarray(rs.uniform(-1, 1, size=(case['steps'], B, env.action_size)).astype(np.float32))
+    acts = jp.asarray(rs.uniform(-1, 1, size=(case['steps'], B, env.action_size)).astype(np.float64 if jax.config.jax_enable_x64 else np.float32))
 
     def roll(key, a):
       st = env.reset(key)
@@ -243,12 +243,14 @@ def run(ctx):
             for e, b in ([('inverted_pendulum', 'generalized'), ('reacher', 'positional')] if q else
                          [('inverted_pendulum', 'generalized'), ('reacher', 'positional'), ('hopper', 'spring'),
                           ('halfcheetah', 'generalized'), ('ant', 'positional'), ('walker2d', 'spring')])]
-  for case, out in par.run('harness.drivers.c07', 'env_case', ecases, x64=False):
+  # float64: in float32 the 1e-7 round-off difference between the batched and the solo XLA program is amplified by the contact
+  # dynamics of a 20-step rollout to 1e-2 (observed on halfcheetah/generalized and ant/positional in the first thorough sweep),
+  # which says nothing about batching; in float64 the same rollouts agree to 1e-11
+  for case, out in par.run('harness.drivers.c07', 'env_case', ecases, x64=True):
     if 'brax_error' in out:
       ctx.violation(f'{case["env"]}/{case["backend"]} raised under vmap: {out["brax_error"]}', case, {'call': 'env', 'predicate': 'raised'})
       continue
-    # float32: 1e-5 relative -> scale the residual so that the common Eps applies
-    traces.append([{'kind': 'pointwise', 'res': quant(out['pointwise'] * 1e-4), 'excluded': 0}])
+    traces.append([{'kind': 'pointwise', 'res': quant(out['pointwise'] * (1e-4 if case['backend'] == 'generalized' else 1.0)), 'excluded': 0}])
     info.append((case, out))
   tf = os.path.join(tlc.WORK, 'c07.json')
   with open(tf, 'w') as f:
